@@ -662,9 +662,12 @@ type pomCase struct {
 	Targets    [][2]string `json:"targets,omitempty"` // per update: pom number, origin of the addressed declaration
 	ChainOK    bool        `json:"chain_ok"`          // every pom of the chain was written by Write
 	TokClaimed bool        `json:"tok_claimed"`       // token-level part of the domain (see domain)
-	Claimed    bool        `json:"claimed"`           // structural part of the oracle's domain (see claimedDomain)
-	ClaimNote  string      `json:"claim_note,omitempty"`
-	PropPairs  []propPair  `json:"prop_pairs,omitempty"` // generatePropertyPatches calls Write must make, in order
+	tokFiles   []tokDump
+	tokTable   string
+	TokDumpOK  bool       `json:"tok_dump_ok"` // token streams of all chain files dumped (no added entries)
+	Claimed    bool       `json:"claimed"`     // structural part of the oracle's domain (see claimedDomain)
+	ClaimNote  string     `json:"claim_note,omitempty"`
+	PropPairs  []propPair `json:"prop_pairs,omitempty"` // generatePropertyPatches calls Write must make, in order
 }
 
 func (c *pomCase) coq() string {
@@ -697,16 +700,29 @@ func (c *pomCase) coq() string {
 	case c.Outcome == "ok":
 		obs = "(DObsOk " + coqChain(c.DAfter) + ")"
 	}
-	return fmt.Sprintf("{| mc_prop_pairs := %s; mc_chain := %s; mc_updates := %s; mc_dobs := %s; mc_chain_ok := %s; mc_tok_claimed := %s; mc_zero_updates := %s; mc_claimed := %s; mc_panic := %s; mc_error := %s; mc_good := %s |}",
-		l, coqChain(c.DChain), ul, obs, cf.Bool(c.ChainOK), cf.Bool(c.TokClaimed), cf.Bool(len(c.Updates) == 0), cf.Bool(c.Claimed), cf.Bool(c.Outcome == "panic"), cf.Bool(c.Outcome == "err"), cf.Bool(good))
+	tfs := make([]string, len(c.tokFiles))
+	for i, tf := range c.tokFiles {
+		tfs[i] = tf.coq()
+	}
+	tfl, tbl := "(@nil tokfile)", "(@nil (N * bytes))"
+	if len(tfs) > 0 {
+		tfl = cf.List(tfs)
+	}
+	if c.tokTable != "" {
+		tbl = c.tokTable
+	}
+	return fmt.Sprintf("{| mc_prop_pairs := %s; mc_chain := %s; mc_updates := %s; mc_dobs := %s; mc_chain_ok := %s; mc_tok_claimed := %s; mc_zero_updates := %s; mc_claimed := %s; mc_panic := %s; mc_error := %s; mc_good := %s; mc_tokfiles := %s; mc_texts := %s; mc_tok_dump_ok := %s |}",
+		l, coqChain(c.DChain), ul, obs, cf.Bool(c.ChainOK), cf.Bool(c.TokClaimed), cf.Bool(len(c.Updates) == 0), cf.Bool(c.Claimed), cf.Bool(c.Outcome == "panic"), cf.Bool(c.Outcome == "err"), cf.Bool(good),
+		tfl, tbl, cf.Bool(c.TokDumpOK))
 }
 
 // ---------------------------------------------------------------- XML tokens (oracle side: encoding/xml)
 
 type tok struct {
-	Kind string // S E T C P D
-	Text string
-	Path string // element path at this token (for T: the enclosing elements)
+	Kind  string // S E T C P D
+	Text  string
+	Path  string // element path at this token (for T: the enclosing elements)
+	Local string // S, E: local name
 }
 
 func tokenize(src string) ([]tok, error) {
@@ -729,23 +745,23 @@ func tokenize(src string) ([]tok, error) {
 				attrs = append(attrs, a.Name.Space+" "+a.Name.Local+"="+a.Value)
 			}
 			sort.Strings(attrs)
-			out = append(out, tok{"S", tt.Name.Space + " " + tt.Name.Local + " [" + strings.Join(attrs, ",") + "]", path})
+			out = append(out, tok{"S", tt.Name.Space + " " + tt.Name.Local + " [" + strings.Join(attrs, ",") + "]", path, tt.Name.Local})
 			stack = append(stack, tt.Name.Local)
 		case xml.EndElement:
 			stack = stack[:len(stack)-1]
-			out = append(out, tok{"E", tt.Name.Space + " " + tt.Name.Local, strings.Join(stack, ">")})
+			out = append(out, tok{"E", tt.Name.Space + " " + tt.Name.Local, strings.Join(stack, ">"), tt.Name.Local})
 		case xml.CharData:
 			if n := len(out); n > 0 && out[n-1].Kind == "T" {
 				out[n-1].Text += string(tt) // adjacent text and CDATA are one text
 			} else {
-				out = append(out, tok{"T", string(tt), path})
+				out = append(out, tok{"T", string(tt), path, ""})
 			}
 		case xml.Comment:
-			out = append(out, tok{"C", string(tt), path})
+			out = append(out, tok{"C", string(tt), path, ""})
 		case xml.ProcInst:
-			out = append(out, tok{"P", tt.Target + " " + string(tt.Inst), path})
+			out = append(out, tok{"P", tt.Target + " " + string(tt.Inst), path, ""})
 		case xml.Directive:
-			out = append(out, tok{"D", string(tt), path})
+			out = append(out, tok{"D", string(tt), path, ""})
 		}
 	}
 	return out, nil
@@ -888,6 +904,7 @@ func (c *pomCase) run(pickUpdates func(m guidedremediation.VerifManifest, reqs [
 	c.TokensOK, c.TokensNote, c.RereadOK, c.Claimed, c.ClaimNote, c.PropPairs = false, "", false, false, "", nil
 	c.EffOK, c.EffNote, c.effBefore = false, "", nil
 	c.DChain, c.DAfter, c.Targets, c.ChainOK, c.TokClaimed = nil, nil, nil, false, false
+	c.tokFiles, c.tokTable, c.TokDumpOK = nil, "", false
 	c.Files = map[string]string{}
 	for _, pf := range c.Chain {
 		c.Files[pf.Path] = pf.Pom.render()
@@ -1009,6 +1026,7 @@ func (c *pomCase) run(pickUpdates func(m guidedremediation.VerifManifest, reqs [
 	} else {
 		c.ChainOK = false
 	}
+	c.dumpTokens(chainPaths, after)
 	m2, err := readMaven(outRoot, c.Main)
 	if err != nil {
 		c.Err = "reread: " + err.Error()
@@ -1305,7 +1323,7 @@ type pomEmitter struct{}
 
 func (pomEmitter) header() string {
 	return "From Coq Require Import List ZArith NArith Bool.\n" +
-		"From Scalibr Require Import Writers.GoBytes Writers.PomProps Writers.PomDecl Writers.PomWriter.\nImport ListNotations.\n"
+		"From Scalibr Require Import Writers.GoBytes Writers.PomProps Writers.PomDecl Writers.PomTokens Writers.PomWriter.\nImport ListNotations.\n"
 }
 func (pomEmitter) caseType() string { return "mcase" }
 
